@@ -6,10 +6,10 @@
    C12_on_state_time_none).  On real timing data: C12_roundtrip_interior, beat -> time -> beat is the identity
    for every tick-aligned beat strictly between event beats and outside the union of the warps.
    Left to the correspondence on the dyadic family (exact floats), with the oracle stating them directly:
-   the round trip on event beats, warp segments with a stop or delay inside or starting on beat 0, global
+   warp segments with a stop or delay inside or starting on beat 0, global
    monotonicity in time (C12_warp_elapse is the warp clause for the other segments; C12_half_tick the bound in beats). *)
 From Coq Require Import List ZArith QArith Qabs Bool Sorting.Sorted.
-From SV Require Import Sx Beat Engine Proofs.EngineFacts Proofs.Hittable Proofs.TimeLaw Proofs.BeatAt Proofs.WarpElapse.
+From SV Require Import Sx Beat Engine Proofs.EngineFacts Proofs.Hittable Proofs.TimeLaw Proofs.BeatAt Proofs.WarpElapse Proofs.RoundTripEvent.
 Import ListNotations.
 Open Scope Q_scope.
 
@@ -90,6 +90,17 @@ Theorem C12_monotone_local : forall pre s post d t1 t2 q,
   fst (beat_at_raw (pre ++ s :: post) d t1 q) <= fst (beat_at_raw (pre ++ s :: post) d t2 q).
 Proof. exact beat_at_monotone_local. Qed.
 Print Assumptions C12_monotone_local.
+
+(* ... and a beat on which events sit (or beat 0) comes back too, under the default tag, when it is outside the union
+   of the warps and the stops have positive length: together with C12_roundtrip_interior, every tick-aligned beat that
+   no warp skips over *)
+Theorem C12_roundtrip_on_event_beat : forall td b0 v0 rest, dom td -> td_bpms td = (b0, v0) :: rest -> b0 == 0 ->
+  (forall r, In r (td_stops td) -> 0 < snd r) ->
+  forall b, 0 <= b -> ~ in_raw (td_warps td) b ->
+  ((exists e, In e (events td) /\ e_beat e == b /\ (e_tag e <= 5)%Z) \/ b == 0) ->
+  fst (beat_at_raw (sts td v0) (init_state td v0) (time_at (sts td v0) (init_state td v0) b tSTOP) tSTOP) == b.
+Proof. exact roundtrip_on_event_beat. Qed.
+Print Assumptions C12_roundtrip_on_event_beat.
 
 (* at the time at which a whole warp segment elapses - [segs] are the coalesced segments, whose union is the union of
    the raw warps - the WARP tag gives the beat where that stretch starts and the default gives the beat where it
